@@ -25,7 +25,10 @@ use std::sync::atomic::AtomicBool;
 use std::sync::atomic::Ordering;
 use std::time::Instant;
 
-pub const VERIF_ROOT: &str = "/verif";
+/// Root directory for evidence/, replays/, known_findings.txt (override with VERIF_ROOT for scratch work).
+pub fn verif_root() -> String {
+  std::env::var("VERIF_ROOT").unwrap_or_else(|_| "/verif".to_string())
+}
 
 // ------------------------------------------------------------------------------------------
 // Violations and per-case observations
@@ -765,7 +768,7 @@ fn read_case_file(path: &str) -> Result<Value, String> {
   let p = if path.starts_with('/') {
     PathBuf::from(path)
   } else {
-    PathBuf::from(VERIF_ROOT).join(path)
+    PathBuf::from(verif_root()).join(path)
   };
   let text = std::fs::read_to_string(&p).map_err(|e| format!("cannot read {}: {e}", p.display()))?;
   let v: Value = serde_json::from_str(&text).map_err(|e| format!("{}: {e}", p.display()))?;
@@ -805,7 +808,7 @@ pub fn drive(def: &PropertyDef, tier: Tier, seed: u64, replay: Option<String>) -
   }
 
   let mut ctx = Ctx::new(def.id, tier, seed);
-  let known: Vec<KnownEntry> = load_known(&format!("{VERIF_ROOT}/known_findings.txt"))
+  let known: Vec<KnownEntry> = load_known(&format!("{}/known_findings.txt", verif_root()))
     .into_iter()
     .filter(|k| k.property == def.id)
     .collect();
@@ -867,7 +870,7 @@ pub fn drive(def: &PropertyDef, tier: Tier, seed: u64, replay: Option<String>) -
       "case": v.case,
     });
     let text = serde_json::to_string_pretty(&body).unwrap();
-    let dir = PathBuf::from(VERIF_ROOT).join("replays").join(def.id);
+    let dir = PathBuf::from(verif_root()).join("replays").join(def.id);
     let _ = std::fs::create_dir_all(&dir);
     let path = dir.join(format!("{}-{}.json", sanitize(&v.viol.sig), &fnv_hex(&v.case.to_string())[..12]));
     let _ = std::fs::write(&path, text);
@@ -984,7 +987,7 @@ fn write_evidence(ctx: &Ctx) {
     "violations": ctx.violations.len(),
     "inconclusive": ctx.inconclusive,
   });
-  let dir = PathBuf::from(VERIF_ROOT).join("evidence");
+  let dir = PathBuf::from(verif_root()).join("evidence");
   let _ = std::fs::create_dir_all(&dir);
   let _ = std::fs::write(
     dir.join(format!("{}.json", ctx.prop)),
